@@ -263,4 +263,4 @@ PROP = Prop(
     ],
 )
 
-RULE_EXTRA = ('score containers as in C02; easy counts up to 2^40.')
+RULE_EXTRA = ('score containers as in C02; easy counts up to 2^40. Integration limits as float32 / float16 scalars; the alias axes far / tar / frr / trr; byte-swapped arrays.')
